@@ -37,6 +37,7 @@ def poll_rules(ctx, which):
         # the TaskSet that carries the sub-futures' wake-ups (index / countdown word, notification discipline)
         from . import c14
         c14.rule_g(ctx)
+        wake_pairing(ctx)
     mustpass.check(ctx, ["%s-broadcast-polls" % which])
     b = P.body(POLLS[which])
     if b is None:
@@ -188,6 +189,42 @@ def poll_rules(ctx, which):
         same = len(set(io for _, io in per_iter)) == 1
         ctx.ob("%s|same-index-for-slot-future-waker|pass%d" % (tag, k), same and "waker_of" in kinds and len(per_iter) >= 2,
                "within one iteration the sub-future, its result slot and its waker are all selected by the same task index", [x for x, _ in per_iter] + [p])
+
+
+def wake_pairing(ctx):
+    """Wherever a wake sink and a task set are put into one value (default / clone of the output broadcaster's shared state, the
+    source-side broadcast future), the task set notifies a source of *that* sink - the one the poll registers the task's waker on.
+    A task set wired to another sink (the original's, in Clone) wakes nobody."""
+    P = ctx.prog
+    n = 0
+    for b in P.all_bodies():
+        if "::tests" in b.name:
+            continue
+        for a in b.aggregates():
+            f = a.node["r"].get("fields") or []
+            if "wake_sink" not in f or "task_set" not in f:
+                continue
+            fo = dict(zip(f, a.node["r"]["ops"]))
+            ws = b.origins(fo["wake_sink"], a)
+            ts = b.origins(fo["task_set"], a)
+            if all(o[0] == "proj" for o in ws | ts):
+                continue  # a projection of an existing value (pin_project), not a construction
+            n += 1
+            ok = bool(ws) and bool(ts) and all(o[0] == "call" and o[2] == "diatomic_waker::WakeSink::new" for o in ws) and \
+                all(o[0] == "call" and o[2] in ("util::task_set::TaskSet::new", "util::task_set::TaskSet::with_len") for o in ts)
+            if ok:
+                for t in ts:
+                    cs = Site(b, t[1], TERM)
+                    so = b.origins(cs.args()[0], cs)
+                    ok = ok and bool(so) and all(u[0] == "call" and u[2] == "diatomic_waker::WakeSink::source" for u in so)
+                    if not ok:
+                        break
+                    for u in so:
+                        ss = Site(b, u[1], TERM)
+                        ok = ok and b.origins(ss.args()[0], ss) == ws
+            ctx.ob("wake-pairing|%s" % b.name, ok,
+                   "the task set stored next to a wake sink notifies a source of that very sink (a fresh one per value)", [a])
+    ctx.ob("floor|wake-pairing-sites", n >= 3, "expected >= 3 constructions of a (wake sink, task set) pair (found %d)" % n)
 
 
 def output_slot_rules(ctx):
